@@ -53,6 +53,7 @@ def fault_atoms():
         [["trunc"], ["fin"]],
         [["undecodable_value"]],
         [["undecodable_struct"]],
+        [["undecodable_index"]],
         [["wfail", 1]],
         [["wfail", 2]],
         [["wfail", 3]],
@@ -83,7 +84,7 @@ API_ATOMS = [
     [("net", "accept", 2.0 + EPS), ("fin",)],
     [("fin",)], [("rst",)], [("garbage",)], [("badcrc",)], [("trunc",)],
     [("trunc",), ("fin",)],
-    [("undecodable_value",)], [("undecodable_struct",)],
+    [("undecodable_value",)], [("undecodable_struct",)], [("undecodable_index",)],
     [("wfail", 1), ("cmd", "ac_on")], [("wfail", 2), ("cmd", "zone_damper")],
     [("wfail", 3), ("cmd", "ac_toggle")],
     [("cmd", "zone_setpoint_300")],        # struct.error kind, through the public API
@@ -131,6 +132,11 @@ def expand(gen, ops):
                 raw = R.frame(5, R.ADDR_CLIENT, 0x80, 6, 0xC0,
                               bytes([0x21, 0, 0, 0, 0, 8, 0, 3]) + bytes(8))
             out.append(["data", raw.hex()])
+        elif op[0] == "undecodable_index":
+            # well-formed frame whose body ends before a field a decoder indexes directly
+            # (one-byte console version body; empty error information): IndexError kind
+            body = R.ext(0xFF30, b"\x00") if gen == 4 else R.ext(0xFF10, b"")
+            out.append(["data", R.frame(gen, R.ADDR_CLIENT, 0x90, 7, 0x1F, body).hex()])
         else:
             out.append(op)
     return out
